@@ -9,6 +9,7 @@ import (
 	"fmt"
 	"io"
 	"runtime"
+	"sort"
 	"strings"
 	"unicode/utf8"
 
@@ -488,7 +489,20 @@ func checkDoc(c cfg, doc []byte, on result) (viol vlist) {
 		return
 	}
 	if len(offR.stmts) != len(on.stmts) || offR.verdict != on.verdict {
-		viol.add("capture-changes-outcome", "", "capture changes the outcome: %d statements/%s (%v) with, %d/%s (%v) without", len(on.stmts), on.verdict, on.err, len(offR.stmts), offR.verdict, offR.err)
+		viol.add("capture-changes-outcome", recoveredKind(on.err, offR.err), "capture changes the outcome: %d statements/%s (%v) with, %d/%s (%v) without", len(on.stmts), on.verdict, on.err, len(offR.stmts), offR.verdict, offR.err)
+	} else if orderFree[c.format] {
+		// statement order depends on map iteration in these decoders: compare as multisets up to
+		// blank-node renaming
+		if !sameWires(on.stmts, offR.stmts) && !isoBounded(on.stmts, offR.stmts) {
+			viol.add("capture-changes-statement", "", "capture changes the statements (compared as multisets up to blank-node renaming): %v vs %v", wiresOf(on.stmts), wiresOf(offR.stmts))
+		}
+		for i := range offR.stmts {
+			for k := range offR.stmts[i].r {
+				if offR.stmts[i].r[k].ok {
+					viol.add("range-without-capture", "", "range reported although capture is off (statement %d %s)", i, slotName[k])
+				}
+			}
+		}
 	} else {
 		for i := range on.stmts {
 			if on.stmts[i].wire != offR.stmts[i].wire {
@@ -511,7 +525,7 @@ func checkDoc(c cfg, doc []byte, on result) (viol vlist) {
 			if !r.ok {
 				if t != nil {
 					if msg := missingRangeOK(c, &on, i, k); msg != "" {
-						viol.add("range-missing", "", "statement %d (%s): no %s range although capture is on: %s", i, s.wire, slotName[k], msg)
+						viol.add("range-missing", reasonKey(msg), "statement %d (%s): no %s range although capture is on: %s", i, s.wire, slotName[k], msg)
 					}
 				}
 				continue
@@ -596,14 +610,41 @@ func checkShift(c cfg, doc []byte, z result, on result) (viol vlist) {
 		viol.add("initial-changes-outcome", "", "initial offset changes the outcome: %d/%s/%s vs %d/%s/%s", len(z.stmts), z.verdict, z.errKind, len(on.stmts), on.verdict, on.errKind)
 		return
 	}
-	for i := range z.stmts {
-		if z.stmts[i].wire != on.stmts[i].wire {
-			viol.add("initial-changes-outcome", "", "initial offset changes statement %d", i)
+	if orderFree[c.format] && !sameWires(z.stmts, on.stmts) {
+		// different statement order in the two runs: compare the multisets of (shifted) range tuples
+		key := func(st stmt, shift bool) string {
+			var sb strings.Builder
+			for _, r := range st.r {
+				if r.ok && shift {
+					r = rng{true, sh(r.from), sh(r.until)}
+				}
+				sb.WriteString(r.String() + "/")
+			}
+			return sb.String()
 		}
-		for k := range z.stmts[i].r {
-			a, b := z.stmts[i].r[k], on.stmts[i].r[k]
-			if a.ok != b.ok || (a.ok && (sh(a.from) != b.from || sh(a.until) != b.until)) {
-				viol.add("shift", "", "statement %d %s: with initial %s got %s, shifted zero run gives %s-%s", i, slotName[k], c.init, b, sh(a.from), sh(a.until))
+		var a, b []string
+		for i := range z.stmts {
+			a = append(a, key(z.stmts[i], true))
+			b = append(b, key(on.stmts[i], false))
+		}
+		sort.Strings(a)
+		sort.Strings(b)
+		if strings.Join(a, ";") != strings.Join(b, ";") {
+			viol.add("shift", "", "with initial %s the multiset of ranges is not the shifted multiset of the zero run", c.init)
+		}
+		if !isoBounded(z.stmts, on.stmts) {
+			viol.add("initial-changes-outcome", "", "initial offset changes the statements (multisets up to blank-node renaming)")
+		}
+	} else {
+		for i := range z.stmts {
+			if z.stmts[i].wire != on.stmts[i].wire {
+				viol.add("initial-changes-outcome", "", "initial offset changes statement %d", i)
+			}
+			for k := range z.stmts[i].r {
+				a, b := z.stmts[i].r[k], on.stmts[i].r[k]
+				if a.ok != b.ok || (a.ok && (sh(a.from) != b.from || sh(a.until) != b.until)) {
+					viol.add("shift", "", "statement %d %s: with initial %s got %s, shifted zero run gives %s-%s", i, slotName[k], c.init, b, sh(a.from), sh(a.until))
+				}
 			}
 		}
 	}
@@ -614,6 +655,103 @@ func checkShift(c cfg, doc []byte, z result, on result) (viol vlist) {
 		viol.add("shift", "", "error byte offset with initial %s is %d, zero run has %d", c.init, on.e1.b, z.e1.b)
 	}
 	return
+}
+
+// orderFree: decoders whose statement order depends on Go map iteration (RDFa: pending incomplete
+// triples and the rdfa:copy pattern query; the combined HTML decoder contains it).
+var orderFree = map[string]bool{"rdfa": true, "html": true}
+
+func sameWires(a, b []stmt) bool {
+	if len(a) != len(b) {
+		return false
+	}
+	for i := range a {
+		if a[i].wire != b[i].wire {
+			return false
+		}
+	}
+	return true
+}
+
+// isoBounded: are the two statement lists equal as multisets up to blank-node renaming? Necessary
+// condition first (multisets of statements with every blank node replaced by one marker); the
+// backtracking isomorphism check only for small blank-node counts (it is exponential on
+// non-isomorphic inputs), otherwise the necessary condition is accepted.
+func isoBounded(a, b []stmt) bool {
+	if len(a) != len(b) {
+		return false
+	}
+	blind := func(ss []stmt) ([]string, int) {
+		ids := map[rdf.BlankNodeIdentifier]bool{}
+		mark := func(n rdf.BlankNode) string { ids[n.Identifier] = true; return "_" }
+		out := make([]string, len(ss))
+		for i, s := range ss {
+			out[i] = vh.QuadWire(s.quad, mark)
+		}
+		sort.Strings(out)
+		return out, len(ids)
+	}
+	x, nx := blind(a)
+	y, ny := blind(b)
+	if nx != ny || strings.Join(x, ";") != strings.Join(y, ";") {
+		return false
+	}
+	if nx > 8 {
+		return true
+	}
+	return vh.IsomorphicMulti(quadsOf(a), quadsOf(b))
+}
+
+func quadsOf(ss []stmt) []rdf.Quad {
+	qs := make([]rdf.Quad, len(ss))
+	for i, s := range ss {
+		qs[i] = s.quad
+	}
+	return qs
+}
+
+func wiresOf(ss []stmt) []string {
+	ws := make([]string, 0, len(ss))
+	for i, s := range ss {
+		if i >= 12 {
+			ws = append(ws, "…")
+			break
+		}
+		ws = append(ws, s.wire)
+	}
+	return ws
+}
+
+// reasonKey: the stable key a missing-range reason starts with ("key: explanation").
+func reasonKey(msg string) string {
+	if k := strings.Index(msg, ": "); k > 0 && !strings.ContainsAny(msg[:k], " ") {
+		return msg[:k]
+	}
+	return ""
+}
+
+// recoveredKind: x/net/html.Parse recovers panics of the tokenizer wrapper and returns them as errors;
+// when capture changes the outcome because of such an error the sub-key names it.
+func recoveredKind(on, off error) string {
+	for _, e := range []error{on, off} {
+		if e == nil {
+			continue
+		}
+		m := e.Error()
+		switch {
+		case strings.Contains(m, "no grapheme cluster found"):
+			return "recovered:no grapheme cluster found"
+		case strings.Contains(m, "slice bounds out of range"):
+			return "recovered:slice-bounds"
+		case strings.Contains(m, "index out of range"):
+			return "recovered:index"
+		case strings.Contains(m, "nil pointer dereference"):
+			return "recovered:nil-deref"
+		case strings.Contains(m, "runtime error"):
+			return "recovered:other"
+		}
+	}
+	return ""
 }
 
 func clip(s string, n int) string {
